@@ -6,7 +6,8 @@ src/cache.c and src/search.c.  The driver runs the model in this shape; Props/C1
 shape-specific theorems applies (`current_shape`). -/
 namespace Zvbi.Search
 
-def Shape.current : Shape := ⟨Zvbi.Gen.Search.walkStartExact, Zvbi.Gen.Search.turnStopKeepsSubno⟩
+def Shape.current : Shape :=
+  ⟨Zvbi.Gen.Search.walkStartExact, Zvbi.Gen.Search.turnStopKeepsSubno, Zvbi.Gen.Search.lineAnchors⟩
 
 /-- `_vbi_cache_put_page` of the CURRENT /repo: with or without fixes/C10-put-replaces-all-versions.diff (finding F17 /
     C17-D2), as translate/gen_cache.py read it from src/cache.c -/
